@@ -143,6 +143,18 @@ func judge(c Case, w *vkit.W) {
 			}
 		}
 	}
+	if c.S%16 == 9 || c.S < 2048 {
+		// the default rendering is also what the print functions show
+		for _, pr := range []struct{ name, got string }{{"Sprint", fmt.Sprint(s)}, {"Sprintf(%v)", fmt.Sprintf("%v", s)}, {"Sprintf(%s)", fmt.Sprintf("%s", s)}, {"Sprintf(%v) of a slice", fmt.Sprintf("%v", []size.Size{s})}} {
+			want := plain
+			if pr.name == "Sprintf(%v) of a slice" {
+				want = "[" + plain + "]"
+			}
+			if pr.got != want {
+				w.Fail(c, "rendering", fmt.Sprintf("%s of Size(%d) = %q want %q", pr.name, c.S, pr.got, want))
+			}
+		}
+	}
 	gotS, gotP, gotH := s.String(), s.PrettyString(), string(s.PrettyHTML())
 	if gotS != plain {
 		w.Fail(c, "rendering", fmt.Sprintf("Size(%d).String() = %q want %q", c.S, gotS, plain))
